@@ -103,4 +103,11 @@ PROPS = {
             {"name": "TestC08B", "quick": 240, "thorough": 3000, "shards_quick": 6},
         ],
     },
+    "C05": {
+        "level": "exploration",
+        "tests": [
+            {"name": "TestC05A", "quick": 480, "thorough": 12000, "shards_quick": 12},
+            {"name": "TestC05B", "quick": 400, "thorough": 8000, "shards_quick": 4},
+        ],
+    },
 }
